@@ -21,12 +21,13 @@
 //!  A  real trees: n in 1..=N (64 quick / 300 thorough), every i < n, 3 content
 //!     schedules, proofs from the in-memory and the storage-backed tree.
 //!     Completeness: verify(tree.root(), data_i, prove(i), i, n) == true.
-//!     Soundness: every single structured mutation of the valid tuple (root: 4
-//!     variants; data: 6; every index 0..=n+1 and u64::MAX; every count 0..=n+2 and
-//!     all 2^k-1,2^k,2^k+1 (k<=64); per proof element 2 bit flips, removal,
-//!     duplicate insertion; truncation / extension at either end; adjacent swaps)
-//!     plus the full (index, count) product 0..=n+1 x 0..=n+2 for n <= 48 (quick) /
-//!     128 (thorough, schedule 0).
+//!     Soundness: every single structured mutation of the valid tuple (root: 5
+//!     variants; data: up to 6; every index 0..=n+1 and u64::MAX; every count 0..=n+2
+//!     and all 2^k-1,2^k,2^k+1 (k<=64); per proof element 2 bit flips, removal,
+//!     duplicate insertion; truncation at either end, extension at either end by 4
+//!     different elements; adjacent swaps) plus the full (index, count) product
+//!     0..=n+1 x 0..=n+2 for n <= 48 (quick) / n <= 64 all schedules and n <= 128
+//!     schedule 0 (thorough).
 //!  G  boundary grid: count in {2^k-1,2^k,2^k+1 : k<=64, fits u64}, index in
 //!     {0,1,n/2,n-2,n-1,n,n+1,u64::MAX}, synthetic proofs of every length 0..=65,
 //!     candidate roots {RFC result, RFC result bit-flipped, all-right fold, all-left
@@ -632,7 +633,6 @@ fn explore(ctx: &Ctx) {
         .iter()
         .map(|d| fold_table(oracle::leaf_hash(d), &elems, l_max))
         .collect();
-    let before = ctx.violation_count();
     space::par_chunks(
         m_max + 1,
         1,
@@ -644,7 +644,6 @@ fn explore(ctx: &Ctx) {
         "space_S",
         json!({"count": format!("0..={m_max}"), "index": "0..=count+1", "proof_len": format!("0..={l_max}"), "roots": "all 2^len left/right folds", "data": ["", "42"], "completed": true}),
     );
-    let _ = before;
 
     // ---- A
     let (n_max, n_prod_all, n_prod_s0) = ctx.pick((64u64, 48u64, 48u64), (300, 64, 128));
@@ -684,8 +683,6 @@ fn explore(ctx: &Ctx) {
     );
 
     // ---- G
-    let before_g = ctx.sample_count();
-    let _ = before_g;
     space::par_chunks(
         pow2.len() as u64,
         1,
